@@ -268,6 +268,10 @@ void harness(void)
     }
     vp_std_present[i] = vp_bool();
   }
+#if VP_LOWFD && defined(VP_KF_REGION)
+  /* known-finding run: restricted to the region "some standard descriptor is closed" */
+  VP_ASSUME(!vp_fd_open[0] || !vp_fd_open[1] || !vp_fd_open[2]);
+#endif
   /* the caller's two descriptors (used for HANDLE and FILE redirects) */
 #if VP_USERFD_SYM
   g_user_fd[0] = vp_choice(3, VP_NFD - 1);
